@@ -255,8 +255,13 @@ func runDiffCommand() {
 
 	var comparisons gedcom.IndividualComparisons
 
+	// The Notifier is closed just before Compare returns, so it cannot be used
+	// to know when comparisons has been assigned.
+	comparisonsDone := make(chan struct{})
+
 	go func() {
 		comparisons = leftIndividuals.Compare(rightIndividuals, compareOptions)
+		close(comparisonsDone)
 	}()
 
 	if optionProgress {
@@ -276,6 +281,8 @@ func runDiffCommand() {
 		for range compareOptions.Notifier {
 		}
 	}
+
+	<-comparisonsDone
 
 	diffProgress := make(chan gedcom.Progress)
 
